@@ -1230,7 +1230,14 @@ func (vc *VC) divTerm(a, b string, bits int, signed, rem bool) string {
 			vc.emitHeaderAbs(fmt.Sprintf("(assert (forall ((a!q %s) (b!q %s)) (! %s :pattern ((%s a!q b!q)) :pattern ((%s a!q b!q)))))", S, S, facts("a!q", "b!q"), dn, rn))
 		}
 	} else if !vc.eng.declared(vc, "divinst:"+dn+a+"|"+b) {
-		vc.assume(facts(a, b))
+		if _, _, blit := litVal(b); blit {
+			vc.assume(facts(a, b))
+		} else {
+			// symbolic divisor: the defining facts contain a 64-bit product of two symbolic terms, which
+			// makes bit-level solving very slow; they are optional lines - every query is tried without
+			// them (pure congruence over the uninterpreted quotient / remainder) and with them
+			vc.emit(";DIVF (assert " + facts(a, b) + ")")
+		}
 	}
 	if rem {
 		return app(rn, a, b)
